@@ -37,7 +37,7 @@ import molli as ml
 from molli.chem import Atom, AtomType, Element, BondType, BondStereo
 
 from mc.props import c11_num as N
-from mc.props.c11_num import TOL
+from mc.props.c11_num import TOL, EPS
 
 LEVEL = "model_checking"
 
@@ -213,7 +213,7 @@ class Part:
         return self.nbr[ap_label][0]
 
 
-def judge_product(ctx, emit, res, core: Part, subs, cls, dist, want_charge, want_mult, new_bond_kw=None, positional_dups=False):
+def judge_product(ctx, emit, res, core: Part, subs, cls, dist, want_charge, want_mult, new_bond_kw=None, positional_dups=False, gtol=TOL):
     """core: the fragment that keeps its frame (A); subs: list of (Part, its consumed AP label, core AP label).
     emit(symptom, what) records a violation. Returns True when everything holds."""
     ok = True
@@ -313,7 +313,7 @@ def judge_product(ctx, emit, res, core: Part, subs, cls, dist, want_charge, want
         return False
     X = X.astype(float)
     M = N.mag(X, core.coords, *[sp.coords for sp, _, _ in subs])
-    dtol = TOL * M
+    dtol = gtol * M
     W = []
     for sn, (sp, s_ap, c_ap) in enumerate(subs):
         i1, i2 = newb[sn]
@@ -340,7 +340,7 @@ def judge_product(ctx, emit, res, core: Part, subs, cls, dist, want_charge, want
         b2.append(apc)
         a2.append(X[newb[sn][0]] + float(np.linalg.norm(apc - anchor)) * W[sn][0])
     L = N.extent(np.array(b2))
-    vtol = TOL * M * L * L
+    vtol = gtol * M * L * L
     de, ve, _ = N.rigid_errors(b2, a2, N.quads_for(len(b2)))
     _ratio("A-dist", de, dtol)
     _ratio("A-vol", ve, vtol)
@@ -364,7 +364,7 @@ def judge_product(ctx, emit, res, core: Part, subs, cls, dist, want_charge, want
         bb2 = bb + [apc]
         ab2 = ab + [X[newb[sn][1]] - float(np.linalg.norm(apc - anchor)) * W[sn][0]]
         Lb = N.extent(np.array(bb2))
-        vtolb = TOL * M * Lb * Lb
+        vtolb = gtol * M * Lb * Lb
         de, ve, _ = N.rigid_errors(bb2, ab2, N.quads_for(len(bb2)))
         _ratio("B-dist", de, dtol)
         _ratio("B-vol", ve, vtolb)
@@ -419,6 +419,12 @@ def make_pair(ctx, case):
                 d = np.array(case["axis"], dtype=float)
                 cA[iA] = cA[anA] + d
         vA = cA[iA] - cA[anA]
+        tilt = case.get("tilt")
+        if tilt is not None:
+            # near-degenerate: B's attachment vector is rel * (vA turned by a small angle about an axis orthogonal to vA)
+            u1, u2 = N.any_orthogonal(vA)
+            ax = [u1, u2, (u1 + u2) / math.sqrt(2.0), (u1 - 2.0 * u2) / math.sqrt(5.0)][int(tilt[1]) % 4]
+            vA = N.rot_axis_angle(ax, math.radians(float(tilt[0]))) @ vA
         cB[iB] = cB[anB] + float(rel) * vA
     A = build(cls, rowsA, blA, cA, "fragA", case.get("qA", 0), case.get("mA", 1))
     B = build(cls, rowsB, blB, cB, "fragB", case.get("qB", 0), case.get("mB", 1))
@@ -435,7 +441,21 @@ def _vclass(A, B, iA, iB):
         return "parallel"
     if c < -1 + 1e-9:
         return "antiparallel"
+    if c > 0.99:
+        return "near-parallel"
+    if c < -0.99:
+        return "near-antiparallel"
     return "general"
+
+
+def _one_plus_cos_rot(A, B, iA, iB):
+    """1 + cos of the angle between v2 and -v1: the conditioning of the rotation join has to build"""
+    pa = Part(A, [iA])
+    pb = Part(B, [iB])
+    v1 = pa.coords[iA] - pa.coords[pa.pos[pa.anchor(pa.labels[iA])]]
+    v2 = pb.coords[iB] - pb.coords[pb.pos[pb.anchor(pb.labels[iB])]]
+    sdiff = N.unit(v2) - N.unit(v1)
+    return float(np.dot(sdiff, sdiff) / 2.0)
 
 
 def _call_join(cls, A, B, iA, iB, case, answers, reseed, optimize=None):
@@ -502,6 +522,13 @@ def exec_join(ctx, case):
     dist = case.get("dist")
     newkw = dict(btype=BondType.Double, bstereo=BondStereo.E, bforder=2.0) if case.get("newbond") else {}
     v2 = pb.coords[iB] - pb.coords[pb.pos[pb.anchor(pb.labels[iB])]]
+    gtol = TOL
+    if case.get("tilt") is not None:
+        # near-degenerate orientations: 1e-9 widened by the conditioning eps/(1+cos) of the rotation v2 -> -v1, which
+        # join documents to build by the Rodrigues form down to 1+cos = tol = 1e-6 (at most 5.7e-8; a skipped or
+        # approximate rotation is off by >= 1.7e-4 at the smallest tilt of the menu)
+        gtol = max(TOL, 256 * EPS / max(_one_plus_cos_rot(A, B, iA, iB), 1e-6))
+        _ratio("gtol", gtol, 1.0)
 
     def run_all(optimize, count):
         """the join under the first answer, then under every further answer it can consume (at least one more)"""
@@ -523,7 +550,7 @@ def exec_join(ctx, case):
                 emit("input-modified:" + "+".join(sorted(set(d))), f"join changed its inputs: {sorted(set(d))}")
             if case.get("name") is not None and res.name != case["name"]:
                 emit("name-override-ignored", f"name is {res.name!r}")
-            judge_product(ctx, emit, res, pa, [(pb, pb.labels[iB], pa.labels[iA])], cls, dist, wc, wm, newkw)
+            judge_product(ctx, emit, res, pa, [(pb, pb.labels[iB], pa.labels[iA])], cls, dist, wc, wm, newkw, gtol=gtol)
             return res, calls
 
         r0, calls0 = one(N.answer_sequence(N.RNG_MENU[0]), 1)
@@ -698,6 +725,52 @@ def part_par(ctx, spec):
                         exec_join(ctx, case)
                         if ia == 1 and ib == 4 and rel == 0.8 and "axis" in var and not opt:
                             ctx.sample(case)
+
+
+TILTS_DEG = (0.01, 0.3, 1.0, 2.0, 5.0)
+
+
+def near_cases(thorough):
+    """attachment vectors a small angle off exactly antiparallel (rel < 0) and off exactly parallel (rel > 0)"""
+    frs = [(sk, list(aps), 0, AP_POS[n % 3]) for n, (sk, aps) in enumerate(single_ap_frags())]
+    frs += [("s4", [1, 2], 1, "after"), ("r3", [0, 1], 0, "first")]
+    asel = range(len(frs)) if thorough else [1, 3, 6, 9, 12, 16, 17]
+    bsel = range(len(frs)) if thorough else [0, 2, 4, 8, 10, 15, 18]
+    combos = [(d, o) for d in (None, 1.5) for o in (False, True)]
+    out = []
+    for ia in asel:
+        for ib in bsel:
+            for ri, rel in enumerate((-0.8, 0.8, -1.7, 1.25) if thorough else (-0.8, 0.8)):
+                for ti, deg in enumerate(TILTS_DEG):
+                    for axi in range(4 if thorough else 3):
+                        k = ia + ib + ri + ti + axi
+                        use = combos if thorough else [combos[k % 4], combos[(k + 2) % 4 if k % 2 else (k + 3) % 4]]
+                        for dist, opt in use:
+                            out.append(
+                                {
+                                    "family": "join",
+                                    "A": list(frs[ia]),
+                                    "B": list(frs[ib]),
+                                    "rel": rel,
+                                    "tilt": [deg, axi],
+                                    "dist": dist,
+                                    "opt": opt,
+                                    "poseA": (ia + ib) % 6,
+                                    "poseB": (2 * ia + ib + 1) % 6,
+                                    "eoffA": ia % 4,
+                                    "eoffB": (ib + 2) % 4,
+                                    "by_atom": bool(k % 2),
+                                }
+                            )
+    return out
+
+
+def part_near(ctx, spec):
+    lo, hi = spec
+    for i, c in enumerate(near_cases(ctx.thorough)[lo:hi]):
+        exec_join(ctx, c)
+        if lo == 0 and i == 2:
+            ctx.sample(c)
 
 
 # =====================================================================================================
@@ -1132,7 +1205,7 @@ def part_rejoin(ctx, spec):
 
 # =====================================================================================================
 EXEC = {"join": exec_join, "asm": exec_asm, "rejoin": exec_rejoin}
-PARTS = {"join": part_join, "qm": part_qm, "par": part_par, "asm": part_asm, "rejoin": part_rejoin}
+PARTS = {"join": part_join, "qm": part_qm, "par": part_par, "asm": part_asm, "rejoin": part_rejoin, "near": part_near}
 
 
 def _run_part(ctx, part):
@@ -1166,7 +1239,10 @@ def run(ctx):
         "antiparallel attachment vectors (" + par_text + " x {global pose, both anchors at the origin, axis aligned} x optimize_rotation) with EVERY "
         "answer of a 12-entry numpy.random.rand menu (+ answers parallel to v2 when they lie in [0,1)^3); every case is executed at least twice "
         "with different answers and different global generator seeds; iterated joins through scripts/combine._ml_assemble for every order of "
-        "core_aps; histories on the SAME objects: join -> [join at the other attachment point of a two-attachment fragment] -> one in-place "
+        "core_aps; near-degenerate relative orientations: B's attachment vector turned by {0.01, 0.3, 1, 2, 5} degrees off exactly antiparallel "
+        "and off exactly parallel to A's, about 3 (thorough: 4) axes orthogonal to it, x both optimize_rotation settings x dist {None, 1.5} "
+        "(quick: 7 x 7 fragment pairs, two of the four option pairs per case in rotation; thorough: 19 x 19, all four); "
+        "histories on the SAME objects: join -> [join at the other attachment point of a two-attachment fragment] -> one in-place "
         "edit of the first or of the second fragment out of 14 (move one atom: other / anchor / attachment point, coords= non-rigid, "
         "rotate_dihedral, scale, translate, transform, element, bond type, charge+mult, label, attrib+formal charge, add_atom) -> join again at "
         "the same attachment points, for 6 x 6 fragment pairs (10 x 10 thorough), both argument orders join(A,B) / join(B,A), every join "
@@ -1177,6 +1253,7 @@ def run(ctx):
         "tolerance 1e-9 relative to the largest coordinate involved (Molecule/Structure coordinates are float64 - measured)",
         "atoms are identified by their (unique) labels, so no atom order is demanded of the product; when one substituent object is used twice its copies are told apart by order of use",
         "'points along A's former attachment direction' and B's orientation are judged without assuming how A is moved: A (resp. B) together with the point where its attachment point has to end up - at the original anchor-AP distance along the new bond - must be congruent (distances and signed volumes) with the input fragment including its attachment point",
+        "near-degenerate orientations (tilt family) are judged with 1e-9 widened to 256 eps / max(1+cos(v2,-v1), 1e-6) <= 5.7e-8, the conditioning of the rotation join documents to build with tol=1e-6; everything else stays at 1e-9",
         "dist=None requests no length: only a finite positive bond length is demanded there",
         "a multiplicity override of 0 is not a multiplicity and is not enumerated; the charge override 0 is",
         "partial (atomic) charges of the inputs are not part of the property; shared attrib dictionaries belong to C06",
@@ -1205,6 +1282,11 @@ def run(ctx):
     na = len(asm_cases(thorough))
     for lo, hi in _chunks(na, 16):
         parts.append(("asm", (lo, hi)))
+    nn = len(near_cases(thorough))
+    for lo, hi in _chunks(nn, 16):
+        parts.append(("near", (lo, hi)))
+    ctx.bound["near_degenerate_cases"] = nn
+    ctx.bound["tilts_deg"] = list(TILTS_DEG)
     nr = len(rejoin_cases(thorough))
     for lo, hi in _chunks(nr, 16):
         parts.append(("rejoin", (lo, hi)))
